@@ -1,6 +1,6 @@
 CONSTANTS
   Sinks = {1, 2, 3}
-  Threads = {1, 2, 3, 4}
+  Threads = {1, 2, 3, 4, 5}
 SPECIFICATION TSpec
 CONSTRAINT Progress
 POSTCONDITION Accepted
